@@ -21,6 +21,7 @@ RULE = ('histories: Hypothesis draws (primary of RSA/DSA/ECDSA/EdDSA + ECDH or R
         'characters), unlock-and-sign, unlock-and-decrypt, unlock-and-raise, wrong-passphrase unlock, nested unlock, export/import binary+armored, copy); foreign matrix: every '
         'secret-key algorithm x usage 254/255 x specifier simple/salted/iterated x 9 ciphers x 4 hashes (covering) plus mixed per-component passphrases and GNU-dummy stubs. '
         'Non-trivial: a history with protect and an unlock-scope exit, or a foreign form other than iterated/254; distinct by (algorithm, cipher, hash, specifier, usage, history shape).')
+RULE += ' Wrong passphrases that pass the two-octet checksum of usage 255 / the legacy form are searched for (reference, simple S2K) and must be refused.'
 RULE += ' Histories also hold protect() calls that are refused (IDEA, Twofish), after which the key must be what it was.'
 RULE += ' The foreign matrix also holds passphrases longer than the decoded S2K count (coded count 0) and RSA-2048/3072 keys whose usage-255 checksum wraps around 65536. Mixed forms: protected primary with unprotected subkey, primary in the clear with protected subkey, GnuPG stub primary with protected subkey, protect() while a subkey is still locked; the legacy protection form (usage octet = cipher id).'
 ASSUMPTIONS = ['the secret integers are known independently (key pool generated with cryptography)', 'object-graph walk is bounded (depth 10, 50000 objects); ciphertext blobs are exempt',
@@ -525,6 +526,54 @@ def gnu_dummy_case(rec, kid):
         rec.finding('foreign', 'gnu-dummy/load-exception', case, repr(e))
 
 
+def collision_case(rec, kid, usage, seed):
+    """the two-octet checksum of usage 255 and of the legacy form lets one wrong passphrase in 65536 through the checksum: such a
+    passphrase is searched for with the reference (simple S2K, so a candidate costs one hash and one short decryption) and must be
+    refused like any other wrong passphrase -- what it 'decrypts' is not the secret half of this key"""
+    import pgpy
+    spec = rs2k.Spec('simple', 1 if usage == 'legacy' else 2, b'', None)
+    pw = 'the right one'
+    body = keypool.secret_body(kid, protect={'usage': usage, 'sym': 7, 'spec': spec, 'iv': bytes((i * 5 + seed) & 0xFF for i in range(16)), 'passphrase': pw})
+    pk = wire.split_packets(keypool.ref_cert(kid, secret=False))
+    blob = wire.build_packet(5, body) + pk[1].raw + pk[2].raw
+    sk = rkeys.parse_secret_body(body)
+    found = []
+    for n in range(400000):
+        cand = 'wrong-%d-%d' % (seed, n)
+        pt = rsym.cfb_decrypt(sk.sym, rs2k.derive(sk.s2k, cand, 16), sk.iv, sk.protected_blob)
+        if (sum(pt[:-2]) & 0xFFFF) == int.from_bytes(pt[-2:], 'big'):
+            found.append(cand)
+            if len(found) == 2:
+                break
+    for cand in found:
+        case = {'kind': 'collision', 'kid': kid, 'usage': usage, 'seed': seed, 'passphrase': cand}
+        rec.case(('collision', kid, usage, cand), True, ['foreign/checksum-collision/usage%s' % usage, 'alg/' + kid.split('-')[0]],
+                 {'key': kid, 'usage': usage, 'form': 'wrong passphrase that passes the 16-bit checksum', 'passphrase': cand})
+        try:
+            key = pgpy.PGPKey.from_blob(blob)[0]
+            try:
+                with key.unlock(cand):
+                    rec.finding('foreign', 'wrong-passphrase-accepted/checksum-collision/usage%s' % usage, case, 'is_unlocked=%r' % key.is_unlocked)
+            except Exception:   # noqa
+                pass
+            if key.is_unlocked or walk_for_secrets(key, [kid]):
+                rec.finding('foreign', 'not-locked-after-wrong-passphrase/checksum-collision', case, '')
+            with key.unlock(pw):
+                if not key.pubkey.verify(b'after the collision', key.sign(b'after the collision')):
+                    rec.finding('foreign', 'unlock-after-collision/does-not-work', case, 'signature made with the right passphrase does not verify')
+        except Exception as e:   # noqa
+            rec.finding('foreign', 'exception/checksum-collision/' + harness.exc_key(e), case, repr(e))
+    if not found:
+        rec.note('checksum-collision/none-found-in-400000')
+
+
+def w_collision(arg):
+    kid, usage, seed = arg
+    rec = harness.Rec()
+    collision_case(rec, kid, usage, seed)
+    return rec
+
+
 def w_foreign(arg):
     part, nparts = arg
     rec = harness.Rec()
@@ -567,6 +616,8 @@ def w_foreign(arg):
 
 def run(tier, seed):
     tasks = [('w_foreign', (p, 4)) for p in range(4)] + [('w_matrix', (p, 6)) for p in range(6)]
+    ck = ['ed25519-0', 'ecdsa-p256-0', 'rsa1024-0', 'dsa1024-0', 'ecdsa-p521-0']
+    tasks += [('w_collision', (ck[(seed + j) % len(ck)], u, seed % 251)) for j, u in enumerate((255, 'legacy') if tier == 'quick' else (255, 'legacy', 255, 'legacy', 255))]
     n, bsec = (7, 90) if tier == 'quick' else (150, 1500)
     for i in range(6 if tier == 'quick' else 22):
         tasks.append(('w_hist', (seed, i, n, bsec)))
@@ -585,6 +636,8 @@ def replay(case):
         gnu_dummy_case(rec, case['kid'])
     elif case.get('kind') == 'mixed':
         mixed_case(rec, case['kid'], case['sub'], case['shape'])
+    elif case.get('kind') == 'collision':
+        collision_case(rec, case['kid'], case['usage'], case['seed'])
     elif case.get('kind') == 'plain-sub':
         plain_sub_case(rec, case['kid'], case['sub'])
     else:
